@@ -257,6 +257,41 @@ fn mk(pk: &str, hide: bool, k: u64, parent: Option<span::Id>) -> Span {
     }
 }
 
+/// A value whose `Debug` impl fails: the ErrorSubscriber cannot format the fields of a span that carries it and stores nothing
+/// for that span - a captured SpanTrace must still list the span (with empty fields).
+struct Unprintable;
+impl std::fmt::Debug for Unprintable {
+    fn fmt(&self, _: &mut std::fmt::Formatter<'_>) -> std::fmt::Result {
+        Err(std::fmt::Error)
+    }
+}
+/// a span with such a field; `which` picks one of four span names, by which a SpanTrace entry without fields is recognised
+fn mk_bad(pk: &str, which: u64, k: u64, parent: Option<span::Id>) -> Span {
+    macro_rules! sp {
+        ($n:literal) => {
+            match pk {
+                "ctx" => tracing::span!(Level::INFO, $n, k = k, bad = ?Unprintable),
+                "root" => tracing::span!(parent: None, Level::INFO, $n, k = k, bad = ?Unprintable),
+                _ => tracing::span!(parent: parent.unwrap(), Level::INFO, $n, k = k, bad = ?Unprintable),
+            }
+        };
+    }
+    match which {
+        0 => sp!("bad0"),
+        1 => sp!("bad1"),
+        2 => sp!("bad2"),
+        _ => sp!("bad3"),
+    }
+}
+static BAD_NAMES: Mutex<Vec<(String, i64)>> = Mutex::new(Vec::new());
+/// the token of a SpanTrace entry: from its formatted fields, or - for a span whose fields could not be formatted - by its name
+fn trace_tok(meta: &tracing_core::Metadata<'_>, fields: &str) -> i64 {
+    if let Some(t) = fields.split("k=").nth(1).and_then(|x| x.split(|c: char| !c.is_ascii_digit()).next()).and_then(|x| x.parse().ok()) {
+        return t;
+    }
+    BAD_NAMES.lock().unwrap().iter().find(|(n, _)| n == meta.name()).map(|x| x.1).unwrap_or(-1)
+}
+
 /// token of span `id` as stored in registry stack `d` (layer 1's token), 0 if it cannot be looked up
 fn lookup_tok(d: &Dispatch, id: &span::Id) -> i64 {
     d.downcast_ref::<Registry>()
@@ -476,12 +511,16 @@ fn child() {
             "new" => {
                 serial += 1;
                 let (pk, ser, reg) = (step["pk"].as_str().unwrap().to_string(), serial, *curd.get(&t).unwrap_or(&0));
+                // `bad`: one of its fields cannot be formatted (at most four such spans per history, each under its own name)
+                let bad = step["bad"].as_u64();
                 ws.run(t, move |_| {
-                    let sp = if pk == "of" {
-                        let par = sh2.target(p).map(|x| x.0);
-                        mk(&pk, hide, ser, par)
-                    } else {
-                        mk(&pk, hide, ser, None)
+                    let par = if pk == "of" { sh2.target(p).map(|x| x.0) } else { None };
+                    let sp = match bad {
+                        Some(which) => {
+                            BAD_NAMES.lock().unwrap().push((format!("bad{}", which.min(3)), ser as i64));
+                            mk_bad(&pk, which, ser, par)
+                        }
+                        None => mk(&pk, hide, ser, par),
                     };
                     let id = sp.id().map(|i| i.into_u64()).unwrap_or(0);
                     sh2.meta.lock().unwrap().insert(ser, (reg, id));
@@ -626,9 +665,9 @@ fn child() {
                         let st = SpanTrace::capture();
                         // SpanTrace hides its span; read the captured span's token through with_spans (first = leaf)
                         let mut first: Option<i64> = None;
-                        st.with_spans(|_, fields| {
+                        st.with_spans(|meta, fields| {
                             if first.is_none() {
-                                first = fields.split("k=").nth(1).and_then(|x| x.split(|c: char| !c.is_ascii_digit()).next()).and_then(|x| x.parse().ok());
+                                first = Some(trace_tok(meta, fields));
                             }
                             false
                         });
@@ -647,8 +686,8 @@ fn child() {
                 let chain: Vec<i64> = match m.get(&k).expect("walk: no capture") {
                     Cap::T(st) => {
                         let mut v = vec![];
-                        st.with_spans(|_, fields| {
-                            v.push(fields.split("k=").nth(1).and_then(|x| x.split(|c: char| !c.is_ascii_digit()).next()).and_then(|x| x.parse().ok()).unwrap_or(-1));
+                        st.with_spans(|meta, fields| {
+                            v.push(trace_tok(meta, fields));
                             true
                         });
                         v
